@@ -166,31 +166,37 @@ Qed.
 Lemma expected_index_names w eol recs : map fst (expected_index w eol recs) = map r_name recs.
 Proof. apply expected_index_names_gen. Qed.
 
+(* the record names must also survive str.split() when the .fai is read back
+   ([name_loadable]: no FS GS RS US either); a name such as "a<FS>b" is indexed
+   correctly but its cached row fails to load -- loudly ([ex_fs_name_breaks]) *)
 Theorem expected_index_idx_ok : forall w eol recs,
-  fasta_wf w eol recs -> idx_ok (expected_index w eol recs).
+  fasta_wf w eol recs -> Forall (fun r => name_loadable (r_name r)) recs ->
+  idx_ok (expected_index w eol recs).
 Proof.
-  intros w eol recs (_ & _ & _ & Hok & Hnd). split.
+  intros w eol recs (_ & _ & _ & Hok & Hnd) Hload. split.
   - apply Forall_forall. intros p Hp.
     assert (Hin : In (fst p) (map r_name recs)).
     { rewrite <- (expected_index_names w eol). apply in_map, Hp. }
     apply in_map_iff in Hin as (r & <- & Hr).
-    rewrite Forall_forall in Hok. destruct (Hok r Hr) as ([H1 H2] & _). split; assumption.
+    rewrite Forall_forall in Hok, Hload. destruct (Hok r Hr) as ([H1 H2] & _).
+    split; [assumption | exact (Hload r Hr)].
   - rewrite expected_index_names. exact Hnd.
 Qed.
 
 Corollary cache_roundtrip_index : forall w eol recs, fasta_wf w eol recs ->
+  Forall (fun r => name_loadable (r_name r)) recs ->
   load_index (write_index (expected_index w eol recs)) = Ok (expected_index w eol recs).
-Proof. intros w eol recs H. apply load_write_index, expected_index_idx_ok, H. Qed.
+Proof. intros w eol recs H Hl. apply load_write_index, expected_index_idx_ok; assumption. Qed.
 
 (* end to end: cold indexing then a .fai write / load gives the cold index *)
 Corollary cold_warm_index : forall w eol final_nl recs buf idx asm,
-  fasta_wf w eol recs ->
+  fasta_wf w eol recs -> Forall (fun r => name_loadable (r_name r)) recs ->
   drop_peak (index_fasta (render w eol final_nl recs) buf) = Ok (idx, asm) ->
   load_index (write_index idx) = Ok idx.
 Proof.
-  intros w eol fnl recs buf idx asm Hwf H.
+  intros w eol fnl recs buf idx asm Hwf Hl H.
   rewrite (index_spec w eol fnl recs buf Hwf) in H. injection H as <- <-.
-  apply cache_roundtrip_index, Hwf.
+  apply cache_roundtrip_index; assumption.
 Qed.
 
 (* ====================================== 2 -- the derived assembly is agp_wf *)
@@ -260,7 +266,11 @@ Proof.
     apply in_map_iff in Hsc as (r & <- & Hr). cbn [fst snd].
     rewrite Forall_forall in Hok, Hhash.
     destruct (Hok r Hr) as ([Hne Hsp] & _ & Hseq & _). specialize (Hhash r Hr).
-    assert (Hntl : no_tab_lf (r_name r)) by (apply nosp_no_tab_lf, Hsp).
+    assert (Hntl : no_tab_lf (r_name r)).
+    { unfold no_tab_lf. eapply forallb_impl; [|exact Hsp]. intros a Ha. cbn beta in Ha |- *.
+      apply negb_true_iff in Ha.
+      destruct (Ascii.eqb_spec a TAB) as [->|]; [discriminate Ha|].
+      destruct (Ascii.eqb_spec a LF) as [->|]; [discriminate Ha|]. reflexivity. }
     split; [|split].
     + unfold scaffold_name_ok. destruct (r_name r) as [|c n]; [exact Hhash|].
       split; [exact Hhash | exact Hntl].
@@ -325,7 +335,7 @@ Example ex_by_theorem :
                /\ parse_agp t = Ok (mkAsm [ex_hdr] (expected_asm ex_recs)).
 Proof.
   split.
-  - apply cache_roundtrip_index, ex_fasta_wf.
+  - apply cache_roundtrip_index; [apply ex_fasta_wf | repeat constructor].
   - apply (cache_roundtrip_assembly 5 [LF]);
       [apply ex_fasta_wf | apply ex_header_ok | apply ex_hash].
 Qed.
@@ -335,6 +345,15 @@ Qed.
 Example ex_space_name_breaks :
   load_index (write_index [(s "a b", mkInfo 1 2 3 4)]) = Err ValueError.
 Proof. vm_compute. reflexivity. Qed.
+(* FS (28) is an ordinary byte for the indexer (bytes.split) but white space for
+   str.split(): the cached row of such a name cannot be read back -- an error, never
+   a silently different index *)
+Example ex_fs_name_breaks :
+  load_index (write_index [(s "a" ++ [ascii_of_N 28] ++ s "1", mkInfo 1 2 3 4)]) = Err ValueError
+  /\ name_ok (s "a" ++ [ascii_of_N 28] ++ s "1")
+  /\ ~ name_loadable (s "a" ++ [ascii_of_N 28] ++ s "1").
+Proof. split; [vm_compute; reflexivity|]. split; [split; [discriminate | vm_compute; reflexivity]|].
+       unfold name_loadable. vm_compute. discriminate. Qed.
 Example ex_empty_name_breaks :
   load_index (write_index [([], mkInfo 1 2 3 4)]) = Err ValueError.
 Proof. vm_compute. reflexivity. Qed.
